@@ -10,6 +10,7 @@ import (
 	"encoding/hex"
 	"encoding/json"
 	"fmt"
+	"math"
 	"runtime"
 	"runtime/debug"
 	"runtime/metrics"
@@ -50,7 +51,7 @@ func guard(c *mc.Ctx, entry string, n int, input func() string, fn func()) {
 			c.Failf("panic:"+entry, "%s panicked: %v | input %s", entry, r, input())
 			return
 		}
-		if d := allocated() - before; d > uint64(4096*n)+(4<<20) {
+		if d := allocated() - before; d > uint64(256*n)+(4<<20) {
 			c.Failf("over-allocation:"+entry, "%s allocated %d bytes for an input of %d bytes | input %s", entry, d, n, input())
 		}
 	}()
@@ -472,6 +473,38 @@ func main() {
 	// 3. WKT sentences
 	tokens := []string{"POINT", "LINESTRING", "POLYGON", "MULTIPOINT", "MULTILINESTRING", "MULTIPOLYGON", "GEOMETRYCOLLECTION", "EMPTY", "(", ")", ",", " ", "1", "-1e5", "1 2", "x"}
 	nt := ev.Pick(r, 5, 6)
+	// long payloads with an inflated count: the allocation caps of the stream decoder must keep holding after
+	// the first 10000 genuine points (proportional to the input, not to the claimed count)
+	r.ExploreSharded("wkb-long-payload", "line string / polygon ring / collection member with 9999..10002 genuine points and a count field claiming {genuine, 4e6, 2^28, 2^32-1} x {LE, BE}: byte, stream and scanner decoders", mc.Opts{MaxDev: -1}, 8, func(c *mc.Ctx) {
+		genuine := 9999 + c.Choose(4)
+		claim := []uint32{uint32(genuine), 4000000, 1 << 28, 1<<32 - 1}[c.Choose(4)]
+		form := c.Choose(3)
+		be := c.Bool()
+		if !r.Owned(c, genuine*4+form) {
+			return
+		}
+		var order binary.ByteOrder = binary.LittleEndian
+		ob := byte(1)
+		if be {
+			order, ob = binary.BigEndian, 0
+		}
+		u32 := func(v uint32) []byte { b := make([]byte, 4); order.PutUint32(b, v); return b }
+		pts := make([]byte, 16*genuine)
+		for i := 0; i < genuine; i++ {
+			order.PutUint64(pts[16*i:], math.Float64bits(float64(i)))
+			order.PutUint64(pts[16*i+8:], math.Float64bits(float64(-i)))
+		}
+		var b []byte
+		switch form {
+		case 0: // line string
+			b = append(append(append([]byte{ob}, u32(2)...), u32(claim)...), pts...)
+		case 1: // polygon with one ring
+			b = append(append(append(append([]byte{ob}, u32(3)...), u32(1)...), u32(claim)...), pts...)
+		case 2: // collection holding the line string
+			b = append(append(append([]byte{ob}, u32(7)...), u32(1)...), append(append(append([]byte{ob}, u32(2)...), u32(claim)...), pts...)...)
+		}
+		accepted(c, decodeWKB(c, b, 1))
+	})
 	// scanner texts: the SQL scanners sniff their input (binary, hex, \x-hex, trailing line ends); every short
 	// string over the bytes those sniffers look at
 	scanAlphabet := []byte{'\\', 'x', '0', '1', '3', 'a', 'F', 'g', ' ', '\n', '\t', '\r', 0x00, 0x01, 0xff}
